@@ -28,4 +28,4 @@ def run(ctx):
         "the transport delivers bytes and then io.EOF (no other read errors)",
         "int64(float64) for out-of-range values as on amd64 (only MaxInt64 is affected)",
     ]
-    common.standard(ctx, "GopModel.Props.C38", "c38", 1500, 60000, RULE, driver="drv_pureb")
+    common.standard(ctx, "GopModel.Props.C38", "c38", 1500, 50000, RULE, driver="drv_pureb")
